@@ -204,7 +204,16 @@ type FaultClient struct {
 	AfterHalt func(name string, lockID int64, hl *litefs.HaltLock, err error) (*litefs.HaltLock, error)
 	Calls     atomic.Int64
 	held      atomic.Bool
+	holdAfter atomic.Int64 // Hold once this many stream bytes have been delivered (0 = off)
+	delivered atomic.Int64 // stream bytes delivered to the node so far
 }
+
+// HoldAfter puts the client on hold as soon as n stream bytes (counted from the node's start) have been
+// delivered: the node has then received exactly the beginning of what the primary sent.
+func (c *FaultClient) HoldAfter(n int64) { c.holdAfter.Store(n) }
+
+// Delivered returns the number of stream bytes delivered so far.
+func (c *FaultClient) Delivered() int64 { return c.delivered.Load() }
 
 // Hold stops the delivery of stream data to the node without disconnecting it; Resume continues.
 func (c *FaultClient) Hold()   { c.held.Store(true) }
@@ -288,10 +297,25 @@ type faultStream struct {
 // Read delivers nothing while the client is on hold: the node stays connected to its primary (it keeps its
 // primary info) but falls behind.
 func (s *faultStream) Read(p []byte) (int, error) {
-	for s.c != nil && s.c.held.Load() {
-		time.Sleep(200 * time.Microsecond)
+	if s.c != nil {
+		if t := s.c.holdAfter.Load(); t > 0 && s.c.delivered.Load() >= t {
+			s.c.held.Store(true)
+			s.c.holdAfter.Store(0)
+		}
+		for s.c.held.Load() {
+			time.Sleep(200 * time.Microsecond)
+		}
+		if t := s.c.holdAfter.Load(); t > 0 {
+			if room := t - s.c.delivered.Load(); room > 0 && int64(len(p)) > room {
+				p = p[:room] // stop exactly at the threshold
+			}
+		}
 	}
-	return s.Stream.Read(p)
+	n, err := s.Stream.Read(p)
+	if s.c != nil {
+		s.c.delivered.Add(int64(n))
+	}
+	return n, err
 }
 
 func (s *faultStream) Close() error {
